@@ -111,7 +111,8 @@ Plan generate(uint64_t seed, uint64_t run, bool thorough) {
     p.set("aggr_block", 0, 0);      // pointwise (block_size = 2) aggregation of a scalar problem is not a meaningful configuration (singular coarse levels): only from an explicit plan
     draw_schedule(r, p.sched, (int)p.get("R"));
     draw_vary_params(r, p, 0.3);
-    p.set("rebuild", r.chance(0.15) ? 1 : 0, 0);      // mpi::amg::rebuild with 2*A, compared with a fresh solver for 2*A
+    p.set("rebuild", r.chance(0.15) ? 1 : 0, 0);
+    p.set("tiny_rhs", r.chance(0.08) ? 1 : 0, 0);      // mpi::amg::rebuild with 2*A, compared with a fresh solver for 2*A
     return p;
 }
 
@@ -135,6 +136,10 @@ Result execute(const Plan &p) {
     std::vector<double> NB((size_t)n * std::max<long>(nscols, 1));
     for (long i = 0; i < n; ++i) for (long k = 0; k < nscols; ++k) NB[(size_t)i * nscols + k] = k == 0 ? 1.0 : std::pow((double)(i + 1) / n, (double)k) + 0.25 * std::sin((double)(i * (k + 1)));
     std::vector<double> f = gen::make_vector(n, (uint64_t)p.get("vseed"), 0);
+    // a tiny but non-zero right-hand side, ||f|| a few machine epsilons times a row count between 1 and n: every relative criterion
+    // and every "is the right-hand side zero" shortcut must come to the same answer on all ranks whatever their local sizes are
+    if (p.get("tiny_rhs", 0) && n >= 1) { long double s2 = 0; for (long i = 0; i < n; ++i) s2 += (long double)f[i] * f[i]; double nf = (double)std::sqrt((double)s2);
+        if (nf > 0) { double target = 4.440892098500626e-16 * (1.0 + (double)((p.get("vseed") >> 3) % n)) * 1.03; for (long i = 0; i < n; ++i) f[i] *= target / nf; } }
     long coarsening = p.get("coarsening"), relax = p.get("relax"), solver = p.get("solver");
     std::string nsclass = "none";      // none | ok | deficient-aggregate (an aggregate with fewer points than near-null-space vectors)
     auto sig = [&](const char *oracle, const char *clause, const std::string &detail) {
@@ -372,7 +377,7 @@ Result execute(const Plan &p) {
     js::Value s = js::Value::object();
     s.set("kind", kind_names[kind]); s.set("ranks", R); s.set("family", gen::family_name((int)p.get("family"))); s.set("n", n); s.set("coarsening", coarsening_names[coarsening]); s.set("relax", relax_names[relax]); s.set("solver", solver_names[solver]);
     js::Value jp = js::Value::array(); for (int r = 0; r <= R; ++r) jp.push(rp[r]); s.set("row_partition", jp);
-    s.set("coarse_enough", p.get("coarse_enough")); if (aggr_block) { s.set("aggr_block_size", 2); res.counts["pointwise_aggregation_worlds"]++; } if (!varied.empty()) { s.set("varied_parameters", varied); res.counts["varied_parameter_worlds"]++; } s.set("nullspace_vectors", nscols); s.set("repartition", (long)repart_on); s.set("late_send_read", (long)mc.late_send_read); s.set("recv_poison", (long)mc.recv_poison); s.set("rendezvous", (long)mc.rendezvous);
+    s.set("coarse_enough", p.get("coarse_enough")); if (aggr_block) { s.set("aggr_block_size", 2); res.counts["pointwise_aggregation_worlds"]++; } if (!varied.empty()) { s.set("varied_parameters", varied); res.counts["varied_parameter_worlds"]++; } s.set("nullspace_vectors", nscols); if (p.get("tiny_rhs", 0)) { s.set("tiny_rhs", 1L); res.counts["tiny_rhs_worlds"]++; } s.set("repartition", (long)repart_on); s.set("late_send_read", (long)mc.late_send_read); s.set("recv_poison", (long)mc.recv_poison); s.set("rendezvous", (long)mc.rendezvous);
     s.set("strategy", sim::strategy_name(p.sched.strategy)); s.set("messages", (unsigned long long)out.stats.messages); s.set("collectives", (unsigned long long)out.stats.collectives); s.set("iters", iters[0]); s.set("resid", resid[0]);
     res.sample = s;
     return res;
